@@ -329,6 +329,9 @@ func (s *Stats) write(exhaustive bool) {
 	sort.Strings(hs)
 	slowMu.Lock()
 	s.Extra["slowest_case_s"] = slowest.Seconds()
+	if len(slowestCase) >= 4000 && cfg.OutFile != "" && os.Getenv("VERIF_KEEP_SLOWEST") != "" {
+		_ = os.WriteFile(cfg.OutFile+".slowest.json", slowestCase, 0o644) // development aid: a big slow case
+	}
 	if len(slowestCase) < 4000 {
 		s.Extra["slowest_case"] = slowestCase
 	}
